@@ -433,7 +433,8 @@ def recognise_sum(interp, term, x, a, m):
                 break
         if c is None:
             continue
-        st, _, _, _ = solve.check_sat([wfx, term != _spec.num(c) * W * a], 5000, False, False)
+        # (only keys of the map contribute: the equality is needed for x in the key set)
+        st, _, _, _ = solve.check_sat([wfx, m.mem[x], term != _spec.num(c) * W * a], 5000, False, False)
         if st == 'unsat':
             interp.notes.append(f"sum recognised: {c} * WS_{k}")
             if c == 0:
@@ -961,3 +962,82 @@ def conditional_items_update_loop(interp, st, env, view):
         if isinstance(el, _a.Name):
             env.set(el.id, Undefined(el.id))
     return True
+
+
+class MappedView:
+    """map(f, m.items()) over a contents map of arbitrary size: only consumable by sum()."""
+    py_iterable = True
+
+    def __init__(self, view, f):
+        self.view, self.f = view, f
+
+    def sym_iterate(self, interp, node=None):
+        raise Unsupported("iteration over map(f, <contents map of arbitrary size>) outside sum()")
+
+    def sym_sum(self, interp, start, node=None):
+        from .interp import MergeAbort
+        m = self.view.m
+        x = fresh('x', Sub)
+        a = fresh('a', RS)
+        interp.solver.push()
+        nh = len(interp.hyps)
+        interp.pure += 1
+        try:
+            interp.assume(m.mem[x])
+            interp.assume(sub_wf_term(x))
+            interp.assume(a == m.amt[x])
+            elem = (SubV(x), a) if self.view.kind == 'items' else (SubV(x) if self.view.kind == 'keys' else a)
+            term = interp.call(self.f, [elem], {}, node)
+            if not is_num(term):
+                raise MergeAbort("non-numeric summand")
+        except MergeAbort as e:
+            raise Unsupported(f"sum(map(f, contents)): {e}")
+        except Raised as e:
+            raise Unsupported(f"sum(map(f, contents)): f raises {e.cls}")
+        finally:
+            interp.pure -= 1
+            del interp.hyps[nh:]
+            del interp.hyp_tags[nh:]
+            interp.solver.pop()
+        term = _z3.substitute(real(term), (m.amt[x], a))
+        r = recognise_sum(interp, term, x, a, m)
+        return interp.binop(_ast.Add(), start, r, node) if not (isinstance(start, int) and start == 0) else r
+
+
+def _view_sym_map(self, interp, f, node=None):
+    return MappedView(self, f)
+
+
+SymMapView.sym_map = _view_sym_map
+
+
+def setcomp_over_set(interp, e, env, sset):
+    """{x for x in <symbolic set> if cond(x)}"""
+    from .interp import Env, MergeAbort
+    g = e.generators[0]
+    x = _z3.Const(f'x!sc{next(V._ctr)}', Sub)
+    sc = Env(env)
+    interp.solver.push()
+    nh = len(interp.hyps)
+    interp.pure += 1
+    try:
+        interp.assume(sset.mem[x])
+        interp.assume(sub_wf_term(x))
+        interp.assign(g.target, SubV(x), sc)
+        elt = interp.ev(e.elt, sc)
+        if not (isinstance(elt, SubV) and elt.term.eq(x)):
+            raise MergeAbort("element is not the iterated substance")
+        keep = True
+        for c in g.ifs:
+            cv = interp.ev(c, sc)
+            keep = cv if keep is True else _z3.And(boolz(keep), boolz(cv))
+    except MergeAbort as ex:
+        raise Unsupported(f"set comprehension over a symbolic set: {ex}")
+    except Raised as ex:
+        raise Unsupported(f"set comprehension over a symbolic set raises {ex.cls}")
+    finally:
+        interp.pure -= 1
+        del interp.hyps[nh:]
+        del interp.hyp_tags[nh:]
+        interp.solver.pop()
+    return SymSubSet(_z3.Lambda([x], _z3.And(sset.mem[x], boolz(keep))))
